@@ -1,7 +1,7 @@
 (* C05 — `*` matches any character sequence, everything else matches only itself.
    Property theorems only: each is closed by `exact <lemma>`; statements are written out in full here
    so that weakening a lemma elsewhere breaks this file. *)
-From Hv Require Import Prelude Krauss KraussProofs.
+From Hv Require Import Prelude Krauss KraussProofs KraussCorollaries.
 Open Scope N_scope.
 
 (* The matcher (model of the current krauss.rs loop) decides exactly the declarative relation:
@@ -26,6 +26,32 @@ Theorem C05_old_loop_refuted :
   exists w t, Glob w t /\ wildcard_match_old w t = Some false.
 Proof. exact wildcard_old_refuted. Qed.
 
+(* The wording of the property, case by case (corollaries of the first theorem). *)
+Theorem C05_literal_matches_only_itself :
+  forall w t : list N, starfree w -> (wildcard_match w t = true <-> t = w).
+Proof. exact literal_matches_only_itself. Qed.
+
+Theorem C05_star_matches_everything : forall t : list N, wildcard_match [star] t = true.
+Proof. exact star_matches_everything. Qed.
+
+Theorem C05_prefix_pattern :
+  forall l t : list N, starfree l -> (wildcard_match (l ++ [star]) t = true <-> exists s, t = l ++ s).
+Proof. exact prefix_pattern. Qed.
+
+Theorem C05_suffix_pattern :
+  forall l t : list N, starfree l -> (wildcard_match (star :: l) t = true <-> exists s, t = s ++ l).
+Proof. exact suffix_pattern. Qed.
+
+(* prefix and suffix may not overlap in the text (the `"*"` quoted-value test of the configuration parser relies on it) *)
+Theorem C05_infix_pattern :
+  forall a b t : list N, starfree a -> starfree b ->
+    (wildcard_match (a ++ star :: b) t = true <-> exists m, t = a ++ m ++ b).
+Proof. exact infix_pattern. Qed.
+
+Theorem C05_adjacent_stars :
+  forall p t : list N, wildcard_match (star :: star :: p) t = wildcard_match (star :: p) t.
+Proof. exact adjacent_stars. Qed.
+
 (* Non-vacuity: concrete non-trivial instances. *)
 Example C05_example_overlap : wildcard_match [42;97;97;98] [97;97;97;98] = true
                               /\ wildcard_match [97;42;98] [97;98;99] = false
@@ -34,6 +60,12 @@ Example C05_example_overlap : wildcard_match [42;97;97;98] [97;97;97;98] = true
 Proof. vm_compute. repeat split. Qed.
 
 Print Assumptions C05_wildcard_match_iff_glob.
+Print Assumptions C05_literal_matches_only_itself.
+Print Assumptions C05_star_matches_everything.
+Print Assumptions C05_prefix_pattern.
+Print Assumptions C05_suffix_pattern.
+Print Assumptions C05_infix_pattern.
+Print Assumptions C05_adjacent_stars.
 Print Assumptions C05_wildcard_match_terminates.
 Print Assumptions C05_glob_reference.
 Print Assumptions C05_old_loop_refuted.
